@@ -39,7 +39,7 @@ def pending_marker(ctx, gate):
     marks = []
     for n in cfg.nodes:
         if n.kind == 'cond' and isinstance(n.ast, ast.Compare) and len(n.ast.ops) == 1 and isinstance(n.ast.ops[0], (ast.IsNot, ast.Is)):
-            a = P.self_attr(n.ast.left, gate.self_name)
+            a = P.self_attr(U.deref1(P, gate, n.ast.left), gate.self_name)      # the attribute, or a local copy of it
             if a is None:
                 continue
             pol = isinstance(n.ast.ops[0], ast.IsNot)
